@@ -90,4 +90,18 @@ def foreignWrites : List (String × String) := [("DefaultExecHandler", "Env")]
     field shares the backing array) -/
 def aliasedRestored : List String := ["Params", "origParams"]
 
+/-- The fields `Runner.Run` itself writes on every call, with the reason why a whole-file run (which
+    keeps the Runner untouched between two top-level statements) is not affected.  A new per-call
+    write — e.g. resetting `breakEnclosing` in Run's prologue, which a whole-file run keeps between
+    statements — breaks `run_prologue`. -/
+def runWritesExpected : List (String × String) := [
+  ("exit",     "zeroed per call; `stmt` zeroes it at the start of every statement anyway (Proofs.C30.stmt_pro)"),
+  ("filename", "set per call: the `$0` divergence, known finding C30-arg0-stmt-at-a-time"),
+  ("lastExit", "`= r.exit` at the end of the call, exactly what `stmt` does after every statement")
+]
+
+/-- methods `Run` calls on the runner: `Reset` only under `!r.didReset`; `fillExpandConfig` rebuilds
+    `ecfg`/`ectx` (no shell state); the rest runs the node and the EXIT trap -/
+def runCallsExpected : List String := ["Reset", "fillExpandConfig", "stmts", "stmt", "cmd", "trapCallback"]
+
 end ShVerif.Expect.C30
